@@ -41,6 +41,7 @@ PANIC_API = [
     (r"^chrono::offset::LocalResult::<.*>::unwrap$", "ambiguous or non-existent local time"),
     (r"^chrono::datetime::DateTime::<.*>::(date|with_timezone)$", None),  # total
     (r"^regex::regex::string::Captures::<.*>::(index)$", "no such group"),
+    (r"^<uriparse::uri::URI<.*> as core::convert::TryFrom<&.*(str|\[u8\])>>::try_from$", "uriparse 0.6.4 unwraps the conversion of a SchemelessPathStartsWithColonSegment error (input \":x\")"),
     (r"^base64::(decode::decode_config_slice|encode::encode_config_slice|decode_config_slice|encode_config_slice)$", "output slice too small"),
     (r"^core::num::<impl (u|i)\d+>::(pow|abs|div_euclid|rem_euclid|next_power_of_two)$", "arithmetic overflow"),
     (r"^core::num::<impl (u|i)size>::(pow|abs|div_euclid|rem_euclid|next_power_of_two)$", "arithmetic overflow"),
